@@ -8,8 +8,13 @@
     make of their index is look-up by key, and look-up by key does not depend on the order (hash
     order, collision chains) in which a duplicate-free index is traversed; and Clone re-inserts
     entries in list order, not in index order. *)
-From VF Require Import Base Iter Enc Lru LruStep BaseFacts LruFacts Counts C01Proofs C13Proofs.
-From Coq Require Import Permutation.
+From Coq Require Import List Permutation.
+Import ListNotations.
+From VF Require Import Base Iter Enc Lru LruStep Slru TwoQ Arc Tiny WTiny BaseFacts LruFacts SlruFacts TwoQFacts ArcFacts
+  WTinyFacts Counts C01Proofs C13Proofs
+  Heap HeapIterDef HeapFacts HeapOps HeapRun HeapMulti HeapRefine HeapClone HeapSlruDef HeapSlru HeapTwoQDef HeapTwoQ
+  HeapArcDef HeapArc HeapWTinyDef HeapWTiny HeapIndep.
+
 
 (** look-up by key in a duplicate-free index is independent of its iteration order *)
 Theorem C17_lookup_independent_of_index_order : forall (idx idx' : list entry) k,
@@ -34,9 +39,58 @@ Qed.
 (** Clone rebuilds the list from the list (least-recent first), for every reachable state: the
     clone is the original, whatever order the hash map would iterate in *)
 Theorem C17_clone_uses_list_order : forall (c : nat) (cb : bool) (ops : list lop),
-  clone (lrun (lru_new c cb) ops) = lrun (lru_new c cb) ops.
+  clone (C01Proofs.lrun (lru_new c cb) ops) = C01Proofs.lrun (lru_new c cb) ops.
 Proof. intros. apply clone_id. apply lrun_inv. split; cbn; [constructor|lia]. Qed.
+
+(** ** at the pointer level (layer H): the refinement relation [R h q s] holds for any placement of the nodes in the
+    heap and any order of the hash index that represent the abstract cache [s].  Two such representations — reached
+    under different hashers, with different collisions, hash-map iteration orders and allocation histories —
+    answer every history of calls identically, and stay representations of the same abstract cache *)
+Theorem C17_heap_lru : forall h1 q1 h2 q2 s os,
+  R h1 q1 s -> R h2 q2 s ->
+  exists h1' q1' h2' q2' outs,
+    hrun h1 q1 os = HOk (h1', q1', outs) /\ hrun h2 q2 os = HOk (h2', q2', outs) /\
+    R h1' q1' (fst (HeapRun.lrun s os)) /\ R h2' q2' (fst (HeapRun.lrun s os)).
+Proof. exact lru_indep. Qed.
+
+(** ... iterator scripts (iteration order!) and clones included *)
+Theorem C17_heap_lru_iter_clone : forall h1 q1 h2 q2 s os,
+  R h1 q1 s -> R h2 q2 s -> lru_inv s -> Forall hcop_ok os ->
+  exists h1' q1' h2' q2' outs,
+    hcrun h1 q1 os = HOk (h1', q1', outs) /\ hcrun h2 q2 os = HOk (h2', q2', outs).
+Proof. exact lru_indep_full. Qed.
+
+Theorem C17_heap_slru : forall h1 s1 h2 s2 ls os,
+  RS [] h1 s1 ls -> RS [] h2 s2 ls -> slru_inv ls ->
+  exists h1' s1' h2' s2' outs,
+    hs_run h1 s1 os = HOk (h1', s1', outs) /\ hs_run h2 s2 os = HOk (h2', s2', outs).
+Proof. exact slru_indep. Qed.
+
+Theorem C17_heap_twoq : forall h1 s1 h2 s2 ls os,
+  RQ h1 s1 ls -> RQ h2 s2 ls -> twoq_inv ls -> Forall qop_ok os ->
+  exists h1' s1' h2' s2' outs,
+    ht_run h1 s1 os = HOk (h1', s1', outs) /\ ht_run h2 s2 os = HOk (h2', s2', outs).
+Proof. exact twoq_indep. Qed.
+
+Theorem C17_heap_arc : forall h1 s1 h2 s2 ls os,
+  RA h1 s1 ls [] -> RA h2 s2 ls [] -> arc_inv ls -> Forall aop_ok os ->
+  exists h1' s1' h2' s2' outs,
+    ha_run h1 s1 os = HOk (h1', s1', outs) /\ ha_run h2 s2 os = HOk (h2', s2', outs).
+Proof. exact arc_indep. Qed.
+
+(** W-TinyLFU: given the same estimator state (it is part of the abstract cache), hence the same verdicts *)
+Theorem C17_heap_wtiny : forall h1 s1 h2 s2 ls os,
+  RW h1 s1 ls -> RW h2 s2 ls -> wt_inv ls ->
+  exists h1' s1' h2' s2' outs,
+    hw_run h1 s1 os = HOk (h1', s1', outs) /\ hw_run h2 s2 os = HOk (h2', s2', outs).
+Proof. exact wtiny_indep. Qed.
 
 Print Assumptions C17_lookup_independent_of_index_order.
 Print Assumptions C17_contains_independent_of_index_order.
 Print Assumptions C17_clone_uses_list_order.
+Print Assumptions C17_heap_lru.
+Print Assumptions C17_heap_lru_iter_clone.
+Print Assumptions C17_heap_slru.
+Print Assumptions C17_heap_twoq.
+Print Assumptions C17_heap_arc.
+Print Assumptions C17_heap_wtiny.
